@@ -356,4 +356,22 @@ Proof.
     unfold len in Hlen. rewrite concat_app in Hlen. cbn [concat] in Hlen. rewrite !app_length in Hlen. lia. }
   destruct (extend_chunks_conserves chunks s1 u s' HI1 Hall E) as (_ & Hk). rewrite Hk, H1. reflexivity.
 Qed.
+(* HashSet::deserialize_in_place: what the set held is dropped, the items are stored or dropped *)
+Lemma map_deser_in_place_star items hint s u s' :
+  Inv R ES (s_rt s) -> map_deser_in_place c items hint s = Ok u s' ->
+  dks s' ++ kidsE (s_rt s') ≡ₚ kids_of items ++ dks s ++ kidsE (s_rt s).
+Proof.
+  intros HI E. unfold map_deser_in_place, bind in E.
+  destruct (rt_clear s) as [u1 s1|p s1|f] eqn:E1; try discriminate.
+  pose proof (rt_clear_star s u1 s1 HI E1) as H1.
+  pose proof (rt_clear_spec c (fun _ s2 => Inv R ES (s_rt s2)) (fun _ _ => True) s HI) as Hs1.
+  unfold wp in Hs1. rewrite E1 in Hs1. assert (HI1 : Inv R ES (s_rt s1)) by (apply Hs1; intros s0 H _ _ _; exact H).
+  assert (Hc : cautious hint <= usize_max).
+  { unfold cautious. pose proof cautious_fits. lia. }
+  destruct (rt_reserve c false (cautious hint) s1) as [b s2|p s2|f] eqn:E2; try discriminate.
+  pose proof (rt_reserve_star false _ s1 b s2 HI1 Hc E2) as H2.
+  pose proof (rt_reserve_spec c false (cautious hint) (fun _ s3 => Inv R ES (s_rt s3)) (fun _ _ => True) s1 HI1 Hc) as Hs2.
+  unfold wp in Hs2. rewrite E2 in Hs2. assert (HI2 : Inv R ES (s_rt s2)) by (apply Hs2; [intros s0 (H & _); exact H|auto|auto]).
+  destruct (insert_all_conserves items s2 u s' HI2 E) as (_ & Hk & _). unfold kidsE in *. rewrite Hk, H2, H1. reflexivity.
+Qed.
 End Conserve.
